@@ -32,7 +32,7 @@ def gen_cases(tier, rng):
     for _ in range(n):
         d = rng.choice([1, 2, 3, 3, 4])
         H = rng.range(2, {1: 7, 2: 5, 3: 5, 4: 3}[d])
-        rel = rng.below(7)
+        rel = rng.below(9)
         ks = rng.choice(T.KINDS); kt = rng.choice(T.KINDS)
         Ns = rng.choice([1, 2, rng.range(3, 20), rng.range(20, maxN)])
         Nt = rng.choice([1, 2, rng.range(3, 20), rng.range(20, maxN)])
@@ -47,12 +47,91 @@ def gen_cases(tier, rng):
             tn = T.gen_positions(rng, d, H, Nt, "single")
         elif rel == 3:
             sn = T.gen_positions(rng, d, H, Ns, "single")
+        elif rel >= 7:
+            # source and target groups with the same first leaf, last leaf and leaf count but different interiors,
+            # sharing some interior leaves at different positions inside their groups
+            nleaf = 1 << (d * (H - 1))
+            if nleaf >= 8:
+                blocks = rng.range(1, 3)
+                per = rng.range(3, 6)
+                S_l, T_l = [], []
+                span = nleaf // blocks
+                ok = span >= per + 3
+                for b in range(blocks if ok else 0):
+                    pool = list(range(b * span, (b + 1) * span))
+                    rng.shuffle(pool)
+                    pick = sorted(pool[:min(len(pool), 2 * per)])
+                    lo, hi, mid = pick[0], pick[-1], pick[1:-1]
+                    if len(mid) < 2: ok = False; break
+                    rng.shuffle(mid)
+                    k = min(per - 2, len(mid) - 1)
+                    shared = mid[0]
+                    a = mid[1:1 + k - 1] if k > 1 else []
+                    bq = list(reversed(mid))[:k - 1] if k > 1 else []
+                    S_l += [lo, hi, shared] + a
+                    T_l += [lo, hi, shared] + bq
+                if ok:
+                    def pts(leaves, n):
+                        out = []
+                        leaves = sorted(set(leaves))
+                        for i in range(max(n, len(leaves))):
+                            c = O.unbox(leaves[i % len(leaves)], d)
+                            out.append([16 * x + rng.below(16) for x in c])
+                        return out
+                    sn = pts(S_l, min(Ns, 3 * len(S_l))); tn = pts(T_l, min(Nt, 3 * len(T_l)))
         nl = len(set(tuple(min(x // 16, (1 << (H - 1)) - 1) for x in p) for p in sn + tn))
         B = rng.choice([1, 2, 3, 5, 8, max(1, nl // 2), nl, 1000, 10000000])
+        if rel >= 7 and rng.below(4) != 0:
+            B = max(1, len(set(tuple(x // 16 for x in p) for p in sn)) // rng.choice([1, 1, 2, 3]))
         stop = rng.choice([2, 2, 2, 0, 1])
         flags = rng.choice([[63], [63], [63], [6, 8, 48, 1], [2, 4, 8, 16, 32, 1], [30, 33], [6, 9, 48], [1, 2, 4, 8, 16, 32], [14, 16, 33]])
         cases.append(case_text(d, 0, H, B, rng.below(2), stop, flags, sn, tn))
     return cases
+
+
+def tsm_oracle(c, parts, trace_filter=lambda x: True):
+    """parts = [dumpSource, dumpTarget, trace, R...]; shared with the OpenMP target/source runs of C03"""
+    S, Tg, stop, flags = parse_case(c)
+    for who, tc, dump in (("source", S, parts[0]), ("target", Tg, parts[1])):
+        dd = T.parse_dump(dump)
+        m = T.oracle_structure(tc, dd) or T.oracle_placement(tc, dd)
+        if m: return "%s tree: %s" % (who, m)
+    calls = [A.parse_call(x) for x in A.split_trace(parts[2]) if trace_filter(x)]
+    m = A.oracle_c02(Tg, calls, lp_src=A.leaf_particles(S), lp_tgt=A.leaf_particles(Tg))
+    if m: return "arguments: " + m
+    for cl in calls:
+        if cl.op in ("P2P", "P2PInner"):
+            return "target/source run performed a mutual/inner interaction: " + cl.op
+    R = {}
+    for tok in parts[3].split()[1:]:
+        k, v = tok.split("="); R[int(k)] = int(v)
+    tot = sum(A.weight(p) for p in range(S.N)) & A.M64
+    if sorted(R) != list(range(Tg.N)):
+        return "results for targets %s" % sorted(R)[:10]
+    for p in range(Tg.N):
+        if R[p] != tot:
+            return "target %d accumulated %d, one contribution from every source is %d" % (p, R[p], tot)
+    # free-kernel replay: each source exactly once per target
+    if S.N * Tg.N <= 6000:
+        mult, loc, rhs = {}, {}, {p: Counter() for p in range(Tg.N)}
+        L = S.H - 1
+        for cl in calls:
+            if cl.op == "P2M": mult.setdefault((L, cl.tgt), Counter()).update(cl.tparts)
+            elif cl.op == "M2M":
+                for a, _, _ in cl.srcs: mult.setdefault((cl.level, cl.tgt), Counter()).update(mult.get((cl.level + 1, a), Counter()))
+            elif cl.op == "M2L":
+                for a, _, _ in cl.srcs: loc.setdefault((cl.level, cl.tgt), Counter()).update(mult.get((cl.level, a), Counter()))
+            elif cl.op == "L2L":
+                for a, _, _ in cl.srcs: loc.setdefault((cl.level + 1, a), Counter()).update(loc.get((cl.level, cl.tgt), Counter()))
+            elif cl.op == "L2P":
+                for p in cl.tparts: rhs[p].update(loc.get((L, cl.tgt), Counter()))
+            elif cl.op == "P2PTsm":
+                for p in cl.tparts: rhs[p].update(cl.sparts)
+        for p in range(Tg.N):
+            for q in range(S.N):
+                if rhs[p].get(q, 0) != 1:
+                    return "target %d received source %d %d times" % (p, q, rhs[p].get(q, 0))
+    return None
 
 
 def run(tier, seed):
@@ -79,48 +158,7 @@ def run(tier, seed):
             return (parts[0], parts[1], sorted(A.elementary(calls).items()))
 
         def oracle(c, line):
-            S, Tg, stop, flags = parse_case(c)
-            parts = split(line)
-            for who, tc, dump in (("source", S, parts[0]), ("target", Tg, parts[1])):
-                dd = T.parse_dump(dump)
-                m = T.oracle_structure(tc, dd) or T.oracle_placement(tc, dd)
-                if m: return "%s tree: %s" % (who, m)
-            calls = [A.parse_call(x) for x in A.split_trace(parts[2])]
-            m = A.oracle_c02(Tg, calls, lp_src=A.leaf_particles(S), lp_tgt=A.leaf_particles(Tg))
-            if m: return "arguments: " + m
-            for cl in calls:
-                if cl.op in ("P2P", "P2PInner"):
-                    return "target/source run performed a mutual/inner interaction: " + cl.op
-            R = {}
-            for tok in parts[3].split()[1:]:
-                k, v = tok.split("="); R[int(k)] = int(v)
-            tot = sum(A.weight(p) for p in range(S.N)) & A.M64
-            if sorted(R) != list(range(Tg.N)):
-                return "results for targets %s" % sorted(R)[:10]
-            for p in range(Tg.N):
-                if R[p] != tot:
-                    return "target %d accumulated %d, one contribution from every source is %d" % (p, R[p], tot)
-            # free-kernel replay: each source exactly once per target
-            if S.N * Tg.N <= 6000:
-                mult, loc, rhs = {}, {}, {p: Counter() for p in range(Tg.N)}
-                L = S.H - 1
-                for cl in calls:
-                    if cl.op == "P2M": mult.setdefault((L, cl.tgt), Counter()).update(cl.tparts)
-                    elif cl.op == "M2M":
-                        for a, _, _ in cl.srcs: mult.setdefault((cl.level, cl.tgt), Counter()).update(mult.get((cl.level + 1, a), Counter()))
-                    elif cl.op == "M2L":
-                        for a, _, _ in cl.srcs: loc.setdefault((cl.level, cl.tgt), Counter()).update(mult.get((cl.level, a), Counter()))
-                    elif cl.op == "L2L":
-                        for a, _, _ in cl.srcs: loc.setdefault((cl.level + 1, a), Counter()).update(loc.get((cl.level, cl.tgt), Counter()))
-                    elif cl.op == "L2P":
-                        for p in cl.tparts: rhs[p].update(loc.get((L, cl.tgt), Counter()))
-                    elif cl.op == "P2PTsm":
-                        for p in cl.tparts: rhs[p].update(cl.sparts)
-                for p in range(Tg.N):
-                    for q in range(S.N):
-                        if rhs[p].get(q, 0) != 1:
-                            return "target %d received source %d %d times" % (p, q, rhs[p].get(q, 0))
-            return None
+            return tsm_oracle(c, split(line))
 
         vlib.differential(rep, binary, cases, sdir, "tsm", canon=canon, oracle=oracle,
                           nontrivial=lambda c, i: " M2L " in i and " P2PTsm " in i, clause=lambda c: "tsm:d" + c.split()[1])
